@@ -643,6 +643,7 @@ func c15Conc(cc c15Cell, env *Env) CellResult {
 			if !seen[v.Signature] {
 				seen[v.Signature] = true
 				v.Choices = r.Choices()
+				mustReproduce(v.Signature, v.Choices, body, check)
 				res.Violations = append(res.Violations, v)
 			}
 		}
